@@ -67,6 +67,7 @@ static int scored[3];     /* acmod_score calls per pass in this utterance */
 static int last_scored_frame[3];
 static int order_ok[3];   /* frames were scored in order 0,1,2,... in this pass */
 static int log_senscr;
+static int sen_mode, sen_seed, sen_range; /* synthetic acoustics (senmode): 0 off, 1 hash, 2 flat, 3 sparse */
 static unsigned char *senset; /* senones to log when log_senscr */
 static int n_senset_alloc;
 static long fed_samples;
@@ -81,6 +82,25 @@ __wrap_acmod_score(acmod_t *acmod, int *inout_frame_idx)
 {
     int16 const *s = __real_acmod_score(acmod, inout_frame_idx);
     int p = pass;
+    if (s && inout_frame_idx && sen_mode) {
+        /* synthetic acoustics: the scorer's output for this frame is replaced by a pure function of (seed, frame,
+         * senone), the same whenever the frame is asked again (second pass, repeated calls); costs in [0, range] */
+        int f = *inout_frame_idx, i, n = bin_mdef_n_sen(acmod->mdef);
+        int16 *w = (int16 *)s;
+        for (i = 0; i < n; ++i) {
+            unsigned long x = (unsigned long)sen_seed * 0x9E3779B97F4A7C15UL + (unsigned long)f * 0xC2B2AE3D27D4EB4FUL
+                + (unsigned long)i * 0x165667B19E3779F9UL;
+            x ^= x >> 29;
+            x *= 0xBF58476D1CE4E5B9UL;
+            x ^= x >> 32;
+            if (sen_mode == 1)
+                w[i] = (int16)(x % (unsigned long)(sen_range + 1));
+            else if (sen_mode == 2)
+                w[i] = 0;
+            else /* a few cheap senones per frame, the rest dear; a handful of distinct values, so ties are common */
+                w[i] = (int16)((x % 7 == 0) ? (long)((x >> 8) % 3) * (sen_range / 8) : sen_range - (long)((x >> 8) % 2) * (sen_range / 4));
+        }
+    }
     if (s && inout_frame_idx) {
         int f = *inout_frame_idx;
         if (f != last_scored_frame[p]) { /* the same frame may be asked twice */
@@ -1148,6 +1168,7 @@ main(int argc, char *argv[])
             json = vt_unhex(arg, NULL);
             if (d)
                 decoder_free(d);
+            sen_mode = 0; /* a new decoder starts with the real scorer */
             cfg = config_parse_json(NULL, json);
             d = cfg ? decoder_init(cfg) : NULL;
             err_set_loglevel(ERR_FATAL);
@@ -1471,6 +1492,14 @@ main(int argc, char *argv[])
                 fprintf(stderr, "bad synlat command\n");
                 return 3;
             }
+        } else if (!strcmp(cmd, "senmode")) { /* senmode off | hash|flat|sparse <seed> <range> */
+            char m[32] = "";
+            long sd = 0, rg = 0;
+            sscanf(line, "%*s %31s %ld %ld", m, &sd, &rg);
+            sen_mode = !strcmp(m, "hash") ? 1 : !strcmp(m, "flat") ? 2 : !strcmp(m, "sparse") ? 3 : 0;
+            sen_seed = (int)sd;
+            sen_range = rg > 0 && rg < 32000 ? (int)rg : 1000;
+            fprintf(vt_out, "{\"e\":\"SenMode\",\"mode\":%d,\"seed\":%d,\"range\":%d}\n", sen_mode, sen_seed, sen_range);
         } else if (!strcmp(cmd, "synhist")) {
             if (cmd_synhist(line) < 0) {
                 fprintf(stderr, "bad synhist command\n");
